@@ -27,7 +27,11 @@ def exact_vocab(rng, alpha_bytes, canonical=0, n_multi=24):
     return vocabs.small_exact(ab, multi, canonical)
 
 
-def regex_job(prop, seed, n, sizes=(2, 9)):
+W_LIGHT = {"mask": 100, "fft_side": 100, "validate": 20, "acc": 100, "ffb": 25, "commit_try": 10, "commit_batch": 10,
+           "rollback": 5, "status": 10, "after_stop": 20}
+
+
+def regex_job(prop, seed, n, sizes=(2, 9), byte_complete=False):
     rng = random.Random(f"{prop}-rx-{seed}")
     eps = []
     for i in range(n):
@@ -38,6 +42,12 @@ def regex_job(prop, seed, n, sizes=(2, 9)):
             ast = rxgen.substr_node(rng)
             if rng.random() < 0.4:
                 ast = {"k": "cat", "a": [rxgen.r_lit(rng, [120, 121], 1), ast, rxgen.r_lit(rng, [120, 121], 1)]}
+            entry = "lark_term"
+        elif x < 0.27:
+            # an intersection (possibly empty on some branch) under an alternation
+            ast = {"k": "alt", "a": [{"k": "and", "a": [rxgen.r_node(rng, alpha, max(2, size // 2)),
+                                                        rxgen.r_node(rng, alpha, max(2, size // 2))]},
+                                     rxgen.r_node(rng, alpha, 2)]}
             entry = "lark_term"
         elif x < 0.5:
             ast = rxgen.t_node(rng, alpha, size)
@@ -62,17 +72,18 @@ def regex_job(prop, seed, n, sizes=(2, 9)):
             ab.update("K".encode())
             ab.update("ſ".encode())
         canonical = 1 if rng.random() < 0.3 else 0
-        if rng.random() < 0.2:
+        if rng.random() < 0.2 or byte_complete:
             voc = vocabs.byte(canonical)
         else:
             voc = exact_vocab(rng, ab, canonical)
         eps.append({"gid": f"rx{i}:{entry}", "mode": prop, "seed": rng.randrange(1 << 30), "steps": rng.randint(6, 16),
-                    "gram": g, "cfgs": [{"vocab": voc, "vid": 0, "slices": []}], "w": dict(W_EXACT),
+                    "gram": g, "cfgs": [{"vocab": voc, "vid": 0, "slices": []}],
+                    "w": dict(W_LIGHT if byte_complete else W_EXACT),
                     "eos_pct": rng.choice([10, 25]), "log_vocab": 1, "init_extra": {"rx": ast, "entry": entry}})
     return {"episodes": eps}
 
 
-def cfg_job(prop, seed, n, hand_share=0.2):
+def cfg_job(prop, seed, n, hand_share=0.2, byte_complete=False):
     from . import cfggen
     rng = random.Random(f"{prop}-cfg-{seed}")
     eps = []
@@ -96,8 +107,10 @@ def cfg_job(prop, seed, n, hand_share=0.2):
             multi |= {m for m in list(multi)[:3]}  # (duplicates are added below)
         multi = sorted(multi)
         dups = [list(m) for m in multi[:2]] if rng.random() < 0.3 else []
+        if byte_complete:
+            ab = list(range(255))
         voc = vocabs.small_exact(ab, [list(m) for m in multi] + dups, canonical)
-        w = dict(W_EXACT)
+        w = dict(W_LIGHT if byte_complete else W_EXACT)
         eps.append({"gid": f"cfg:{name}", "mode": prop, "seed": rng.randrange(1 << 30), "steps": rng.randint(5, 12),
                     "gram": {"kind": "lark", "text": text}, "cfgs": [{"vocab": voc, "vid": 0, "slices": []}], "w": w,
                     "eos_pct": rng.choice([10, 25]), "log_vocab": 1, "init_extra": {"cfg": g}})
